@@ -44,8 +44,10 @@ def pick(rng):
         return {"name": "toy", "kind": "toy", "dim": rng.choice([1, 3])}
     if u < 0.32:
         return {"name": "kinds", "kind": "kinds", "variant": rng.randint(0, 2)}
-    if u < 0.44:
+    if u < 0.40:
         return {"name": "priors", "kind": "priors"}
+    if u < 0.46:
+        return {"name": "subst", "kind": "subst"}
     i = rng.randint(0, len(CLI_VECTORS) - 1)
     sub = rng.choice(["mcmc", "mcmc", "advi"])
     return {"name": "cli:%s:%s" % (sub, " ".join(CLI_VECTORS[i])), "kind": "cli", "sub": sub, "args": CLI_VECTORS[i]}
@@ -73,6 +75,8 @@ def _build(recipe):
         return _priors()
     if kind == "cli":
         return _cli(recipe)
+    if kind == "subst":
+        return _subst()
     raise ValueError(kind)
 
 
@@ -169,4 +173,22 @@ def _priors():
     for pid, p in freshlib.base_parameters(dic).items():
         if "unres" in pid:
             dom[pid] = "real"
+    return spec, dom
+
+
+def _subst():
+    """Substitution models the CLI cannot reach with nucleotide data."""
+    P = scenes.param
+    spec = [
+        {"id": "codon", "type": "CodonDataType", "genetic_code": "Universal"},
+        {"id": "mg94", "type": "MG94", "data_type": "codon", "kappa": P("mg.kappa", [2.0]), "alpha": P("mg.alpha", [1.0]), "beta": P("mg.beta", [0.5]),
+         "frequencies": P("mg.freqs", [1.0 / 61] * 61)},
+        {"id": "dt4", "type": "GeneralDataType", "codes": ["A", "C", "G", "T"]},
+        {"id": "gsym", "type": "GeneralSymmetricSubstitutionModel", "data_type": "dt4", "mapping": [0, 1, 0, 0, 1, 0],
+         "rates": P("gs.rates", [1.0, 3.0]), "frequencies": P("gs.freqs", [0.1, 0.2, 0.3, 0.4])},
+        {"id": "gnonsym", "type": "GeneralNonSymmetricSubstitutionModel", "data_type": "dt4",
+         "rates": P("gn.rates", [0.5 + 0.1 * i for i in range(12)]), "frequencies": P("gn.freqs", [0.25, 0.25, 0.25, 0.25])},
+    ]
+    dom = {"mg.kappa": "positive", "mg.alpha": "positive", "mg.beta": "positive", "mg.freqs": "simplex", "gs.rates": "positive", "gs.freqs": "simplex",
+           "gn.rates": "positive", "gn.freqs": "simplex"}
     return spec, dom
